@@ -20,6 +20,8 @@ def main():
             print(p, 'exit', r.returncode, '|', ' || '.join(l[:160] for l in lines[:3]))
     finally:
         subprocess.run(['git', '-C', '/repo', 'checkout', '--', '.'], check=True)
+        # evidence written by runs on the changed tree must not replace the committed evidence of the unchanged tree
+        subprocess.run(['git', '-C', VERIF, 'checkout', '--', 'evidence'], check=False)
         # regenerate translator outputs for the clean tree
         subprocess.run(['/venv/bin/python', '-m', 'harness.translate.generate_all'], cwd=VERIF,
                        env=dict(os.environ, PYTHONPATH=VERIF + ':/repo'), capture_output=True)
